@@ -300,7 +300,7 @@ PQ_CODEC = {0: "UNCOMPRESSED", 1: "SNAPPY", 2: "GZIP", 6: "ZSTD", 7: "LZ4_RAW"}
 
 
 def pq_bytes(fs, encoding="RLE_DICTIONARY", crc=True, empty_pages=(), rng=None, dict_offset="present", page_encodings=None,
-             page_stats=False):
+             page_stats=False, dictionary=None):
     """The same logical file written by tools/pq.py (independent writer): dictionary-encoded chunks, page CRCs,
     optionally an empty data page inserted before page index i of every chunk (empty_pages = set of i).
     page_stats: Statistics (min / max) in every data page header - with long BYTE_ARRAY values the page header grows
@@ -343,7 +343,8 @@ def pq_bytes(fs, encoding="RLE_DICTIONARY", crc=True, empty_pages=(), rng=None, 
                 pages.append(pq.PageSpec(0, enc, crc=crc))
             has_dict = any(e in ("RLE_DICTIONARY", "PLAIN_DICTIONARY") for e in encs)
             cols.append(pq.ColumnSpec(defs, [0] * len(rows), vals, pages, codec=PQ_CODEC[fs.codec],
-                                      dictionary="auto" if has_dict else None, dict_offset=dict_offset, dict_crc=crc))
+                                      dictionary=(dictionary or "auto") if has_dict else None, dict_offset=dict_offset,
+                                      dict_crc=crc))
         rgs.append(pq.RowGroupSpec(len([r for pg in rg[0] for r in pg]), cols))
     spec = pq.FileSpec(root, rgs)
     return pq.write_file(spec, rng or random.Random(1))
